@@ -84,6 +84,17 @@ def rand_pair(rng, i, simple=False, span=100, sizes=(20, 240), lobes=False):
     """pairs of shapes by configuration family: random placement (crossing / disjoint / touching by chance), B nested strictly
     inside A (results with holes), a crossing next to an on-curve node of A (split-window edge), A enclosing a pocket with B"""
     fam = i % 5
+    if fam == 0 and i % 10 == 0:
+        # disjoint shapes one of whose bounding boxes lies inside the other's: a small shape in the empty corner of a big round one's box
+        R = float(rng.randint(80, 140))
+        o = (float(rng.randint(-span, span)), float(rng.randint(-span, span)))
+        big = {"kind": "circle", "r": R, "o": o} if rng.random() < 0.6 else {"kind": "ellipse", "rx": R, "ry": R * 0.8, "o": o}
+        r = float(rng.randint(6, 12))
+        k = 0.85
+        sx, sy = rng.choice([-1, 1]), rng.choice([-1, 1])
+        c = (o[0] + sx * k * R, o[1] + sy * k * (R if big["kind"] == "circle" else R * 0.8))
+        small = {"kind": "circle", "r": r, "o": c} if rng.random() < 0.5 else {"kind": "rect", "w": 2 * r, "h": r, "o": c}
+        return (big, small) if rng.random() < 0.5 else (small, big)
     if fam == 2:
         # two circles whose two crossing points both lie on ONE quarter-arc of each (centres offset along a diagonal): one pair of segments
         # crosses twice
